@@ -62,6 +62,10 @@ def decode(v: Any, mod: CF.Module) -> Any:
             return v["bytes"].encode()
         if "big" in v:
             return 2**63
+        if "ienum" in v:  # an IntEnum member: an int by instance
+            return getattr(mod.mod.__dict__["Prio"], v["ienum"])
+        if "intsub" in v:  # an instance of a user subclass of int
+            return mod.mod.__dict__["Line"](v["intsub"])
         raise ValueError(v)
     return v
 
@@ -183,7 +187,7 @@ def gen_conforming(a: dict, d: Det) -> Any:
     if k == "annotated":
         return gen_conforming(a["of"], d)
     if k == "scalar":
-        return d.pick({"int": [0, 1, -1, {"big": 1}, 7], "float": [0.0, 1.5, 1, 0], "str": ["", "a", "NodeA"],
+        return d.pick({"int": [0, 1, -1, {"big": 1}, 7, {"ienum": "LOW"}, {"intsub": 7}], "float": [0.0, 1.5, 1, 0], "str": ["", "a", "NodeA"],
                        "bool": [True, False, False], "bytes": [{"bytes": "x"}]}[a["n"]])
     if k == "none":
         return {"none": 1}
